@@ -37,9 +37,12 @@ def build(tier):
         subs = [list(range(k, n)) + [0], [n - 1] + list(range(1, k)) + [k]]
         if tier == "thorough":
             subs += [list(range(n))[::-1], [0, 0, n - 1]]
+        nsub_all_pairs = 2          # thorough: the two extra sequences only with the B of the same index (each query costs 2-6 min)
         for bi, b in enumerate(B):
             for si, sub in enumerate(subs):
                 if tier == "quick" and ((ai + bi) % 2 and not (a[0] == LDPC and b[0] == LDPC) or si != (ai + bi) % len(subs)):
+                    continue
+                if tier == "thorough" and si >= nsub_all_pairs and bi != ai % len(B):
                     continue
                 qs.append(iq(a, b, sub, data=("full" if a[0] == LDPC or k * a[3] <= 2 else "one")))
     # BMODE 1: a whole encoder life and a whole decoder life of B inside every window between two
